@@ -5,7 +5,10 @@
 (* Dev: "flatpair" (a per-pair tuple is kept flat and later indexed as     *)
 (* [algorithm][task] - the pinned tree), "skiplast" (the last task of      *)
 (* every algorithm is skipped), "onemode" (every pair runs in the first    *)
-(* mode), "taskfirst" (a tuple of n = m values is read per task).                                                                  *)
+(* mode), "taskfirst" (a tuple of n = m values is read per task),          *)
+(* "accumulate" (the dictionary of columns is not emptied between two      *)
+(* algorithms), "trialzero" (trial ids counted from 0), "misfile" (the     *)
+(* export pairs folders and tables in opposite orders).                    *)
 (***************************************************************************)
 EXTENDS MultiRel, TLC
 CONSTANTS MaxN, MaxM, NT, ModeVals, Dev
@@ -31,6 +34,15 @@ Calls(n, m, modes) ==
                     IN <<a, t, ModeFor(n, m, modes, a, t), 0>>]
     IN pairs
 
+\* execute(): per algorithm a dictionary column -> list of trial results, appended to _df2; export_results: folder a <- _df2[a]
+ColumnsOf(a, m) == [t \in 1..m |-> <<a, t, [k \in 1..NT |-> <<IF Dev = "trialzero" THEN k - 1 ELSE k, t, a>>]>>]
+RECURSIVE Accumulated(_, _)
+Accumulated(a, m) == IF a = 0 THEN <<>> ELSE Accumulated(a - 1, m) \o ColumnsOf(a, m)
+Tables(n, m) == [a \in 1..n |-> IF Dev = "accumulate" THEN Accumulated(a, m) ELSE ColumnsOf(a, m)]
+Exported(n, m) == [a \in 1..n |-> Tables(n, m)[IF Dev = "misfile" THEN n - a + 1 ELSE a]]
+
+LawTables == c.kind = "case" /\ MustAccept(c.n, c.m, c.modes) => TablesRight(c.n, c.m, NT, Tables(c.n, c.m))
+LawExport == c.kind = "case" /\ MustAccept(c.n, c.m, c.modes) => TablesRight(c.n, c.m, NT, Exported(c.n, c.m))
 LawAccept == c.kind = "case" => (Accepts(c.n, c.m, c.modes) <=> MustAccept(c.n, c.m, c.modes))
 LawPairs == c.kind = "case" /\ MustAccept(c.n, c.m, c.modes) => EveryPairRuns(c.n, c.m, NT, Calls(c.n, c.m, c.modes))
 LawModes == c.kind = "case" /\ MustAccept(c.n, c.m, c.modes) => ModesHonoured(c.n, c.m, c.modes, Calls(c.n, c.m, c.modes))
